@@ -3,6 +3,7 @@ import Iavl.Lemmas.Orphans2
 import Iavl.Lemmas.Sharing
 import Iavl.Generated.FactsOk
 import Iavl.Lemmas.VersionSharingN
+import Iavl.Lemmas.PruneSafe
 /-
   C12 — storage holds exactly the nodes reachable from retained versions. The executable audit
   `auditDump` (Model/Store.lean) decides the property on a concrete database image; it is run on the
@@ -40,6 +41,18 @@ theorem deleted_nodes_exact_in_every_history (iv : Option Nat) (ops : List (Op K
 theorem versions_refer_backwards (iv : Option Nat) (ops : List (Op K V)) (u : Nat) (T : Node K V)
     (h1 : (u, some T) ∈ (stateAfter (initT iv) ops).versions) : AllLe u T :=
   (stateAfter_ninv (initT iv : VState (OTree K V)) (ninv_init iv) ops).allLe _ h1
+
+/-- **no later version needs what pruning deletes, in every history.** `orphans_exact_of_every_history`
+    says the deleted set for version `u` is "the nodes of `u` that `u+1` does not use"; this closes the gap to
+    the property's wording: such a node is used by **no** retained version above `u`, in every state reached
+    from an empty store by a history free of the two documented misuses (`OpOk`, see C14). -/
+theorem pruned_nodes_needed_by_no_later_version (iv : Option Nat) (ops : List (Op K V))
+    (hok : RunOk treeContent (initT iv : VState (OTree K V)) ops) (u w : Nat) (T : Node K V) (c' c : OTree K V)
+    (h1 : (u, some T) ∈ (stateAfter (initT iv) ops).versions)
+    (h2 : (u + 1, c') ∈ (stateAfter (initT iv) ops).versions)
+    (hw : (w, c) ∈ (stateAfter (initT iv) ops).versions) (huw : u + 1 ≤ w)
+    (n : Node K V) (hn : Sub n T) (hnot : ¬ SubO n c') : ¬ SubO n c :=
+  pruned_unused_in_every_history iv ops hok u w T c' c h1 h2 hw huw n hn hnot
 
 /-- the audit's node decoder inverts the encoder on every well-formed record -/
 theorem audit_decoder_sound (n : NodeRec) (hwf : NodeWF n) : decNode (encNode n) = some n :=
